@@ -111,8 +111,7 @@ def build(tier, seed):
             base = STRING_DERIVES
             dflt = rng.choice(["  Bob ", "", "abc", " xA ", "İ"])
             dflt_txt = rust_str(dflt)
-        if idempotent:
-            d.tags.append("C11")
+        d.tags.append("C11" if idempotent else "C11v")
         # derive subset: every trait kept with probability 3/4 (prerequisites restored), conversions alternate
         der = [t for t in base if rng.random() < 0.75]
         for t, pre in (("Eq", ["PartialEq"]), ("Ord", ["PartialOrd", "Eq", "PartialEq"]), ("PartialOrd", ["PartialEq"]), ("Copy", ["Clone"])):
